@@ -20,6 +20,7 @@ import (
 
 	"github.com/go-kit/log"
 	"go.universe.tf/metallb/internal/config"
+	"go.universe.tf/metallb/internal/k8s"
 	"go.universe.tf/metallb/internal/k8s/controllers"
 	"go.universe.tf/metallb/internal/speakerlist"
 	"go.universe.tf/metallb/internal/verifcfg"
@@ -89,6 +90,7 @@ type c20Entry struct {
 }
 
 type c20World struct {
+	h     *k8s.VerifHandlers
 	sim   *spkSim
 	store map[string]*c20Svc // current desired service per key (only the service goroutine touches it)
 	logMu sync.Mutex
@@ -147,17 +149,24 @@ func (w *c20World) wire(curSvc *string, curCfg, curNode *int) {
 		w.logf(c20Entry{Kind: "N", Idx: *curNode})
 		return c.SetNode(l, n)
 	}
+	// events are delivered through the handlers the real k8s.New hands to the reconcilers
+	h, err := k8s.VerifWire(true)
+	if err != nil {
+		panic("verif-inconclusive: cannot wire k8s.New without an API server: " + err.Error())
+	}
+	w.h = h
+	k8s.VerifSetCallbacks(k8s.Listener{ServiceChanged: lis.ServiceChanged, ConfigChanged: lis.ConfigChanged, NodeChanged: lis.NodeChanged})
 }
 
 func (w *c20World) deliverSvc(key string, cur *string) {
 	*cur = key
 	op := w.store[key]
 	if op == nil || op.IP == "delete" {
-		w.sim.lis.ServiceHandler(log.NewNopLogger(), key, nil, nil)
+		w.h.Service(log.NewNopLogger(), key, nil, nil)
 		return
 	}
 	o, eps := w.svcObj(op, 2)
-	w.sim.lis.ServiceHandler(log.NewNopLogger(), key, o, eps)
+	w.h.Service(log.NewNopLogger(), key, o, eps)
 }
 
 func c20Final(w *c20World) spkSnapshot {
@@ -227,7 +236,7 @@ func runC20(c c20Case, tr *vw.Trace) *vw.Violation {
 		defer wg.Done()
 		for i := range w.cfgs {
 			curCfg = i
-			if w.sim.lis.ConfigHandler(log.NewNopLogger(), w.cfgs[i]) == controllers.SyncStateReprocessAll {
+			if w.h.Config(log.NewNopLogger(), w.cfgs[i]) == controllers.SyncStateReprocessAll {
 				reloadReq <- struct{}{}
 			}
 			yield(i + 3)
@@ -238,7 +247,7 @@ func runC20(c c20Case, tr *vw.Trace) *vw.Violation {
 		for i := range c.Nodes {
 			curNode = i
 			n := c.Nodes[i].CR()
-			if w.sim.lis.NodeHandler(log.NewNopLogger(), &n) == controllers.SyncStateReprocessAll {
+			if w.h.Node(log.NewNopLogger(), &n) == controllers.SyncStateReprocessAll {
 				reloadReq <- struct{}{}
 			}
 			yield(i + 5)
@@ -306,11 +315,11 @@ func runC20(c c20Case, tr *vw.Trace) *vw.Violation {
 			w2.deliverSvc(e.Key, &cs)
 		case "C":
 			cc = e.Idx
-			w2.sim.lis.ConfigHandler(log.NewNopLogger(), w2.cfgs[e.Idx])
+			w2.h.Config(log.NewNopLogger(), w2.cfgs[e.Idx])
 		case "N":
 			cn = e.Idx
 			n := c.Nodes[e.Idx].CR()
-			w2.sim.lis.NodeHandler(log.NewNopLogger(), &n)
+			w2.h.Node(log.NewNopLogger(), &n)
 		}
 	}
 	if switches > 2 {
